@@ -387,7 +387,7 @@ def run(ctx):
             for (_bb, callee, args, _res) in p.events:
                 if callee.endswith("::parse") or callee == "equipment::get_slot_from_abbreviation":
                     for x in walk(args[0]):
-                        if isinstance(x, tuple) and x[0] == "agg" and "Range" in x[2] and is_const(x[3][0]):
+                        if isinstance(x, tuple) and x[0] == "agg" and "Range" in x[2] and len(x[3]) >= 2 and is_const(x[3][0]) and is_const(x[3][1]):
                             roles[callee.split("::")[-1]] = (x[3][0][1], x[3][1][1])
         if id_span and slot_span:
             ctx.ob("EQUIP", "slice-roles", roles.get("parse") == id_span[0][:2] and roles.get("get_slot_from_abbreviation") == slot_span[0][:2], f"slices consumed: {roles}; id at {id_span[0][:2]}, slot at {slot_span[0][:2]}", db.file, db.line)
